@@ -72,15 +72,21 @@ _LEDGER_ASSUMPTIONS = [
     "network) are drawn per run and shared by all nodes; only node-local settings differ between nodes",
     "within one driver event the node's own goroutines run to quiescence on one P; their relative order is not chosen by the tape",
     "Go map iteration order inside neo-go is not controlled; oracles are order-insensitive",
+    "a flush running concurrently with AddBlock is two real goroutines released one at a time at the write cache's lock sites "
+    "(build-tag hook storage.VerifLockYield); between two yields a goroutine runs alone",
 ]
 _LEDGER_RULE = ("one run = a rapid-drawn history (bootstrap funding block, optional election blocks, then 2-24 (thorough: 2-60) "
                 "blocks of 0-5 operations each out of 16 kinds: GAS/NEO transfers incl. self/zero/to contracts, votes, candidate "
                 "(un)registration, committee policy changes, role designation, deploy/update/destroy of helper contracts, storage "
                 "put/delete/find, notifications, nested calls with try/catch and throwing callees, token moves from contracts, "
-                "notary deposit/lock/withdraw, Conflicts/HighPriority/NotValidBefore attributes) produced on node P and fed as "
+                "notary deposit/lock/withdraw, notary-assisted (sponsored) transactions, Conflicts/HighPriority/NotValidBefore "
+                "attributes, whitelisted fee contracts set/re-set/removed, attribute fees, block time; a run is general, "
+                "governance-heavy, contract-life-cycle-heavy or vote-heavy) under a drawn hard fork schedule (Aspidochelone..Echidna "
+                "at heights 1..5; plus Faun at 6 and Gorgon at 8; Faun+Gorgon at 5; or all from genesis) produced on node P and fed as "
                 "bytes to 1-3 replicas with independently drawn node-local settings (backend memory/BoltDB/LevelDB, "
                 "KeepOnlyLatestState, RemoveUntraceableBlocks+GC period, VerifyTransactions, SaveStorageBatch, SaveInvocations, "
-                "mempool preload none/all/half), flush policy (only timer ticks / every block / tape-chosen), clean restarts at "
+                "mempool preload none/all/half), flush policy (only timer ticks / every block / tape-chosen / concurrent with "
+                "AddBlock and placed inside storeBlock by the lock-yield scheduler), clean restarts at "
                 "drawn heights, and fake-clock ticks that fire the real persist timer and GC of every node. ")
 
 REGISTRY["C01"] = {
@@ -88,7 +94,8 @@ REGISTRY["C01"] = {
     "level": "exploration",
     "level_text": ("seeded search over histories x node-local configurations x flush schedules x restart heights with the real "
                    "Blockchain on every node; after every block, flush and restart the complete observation of the node "
-                   "(state root, AERs, full contract storage, governance, policy, contracts, balances) must equal the producer's; "
+                   "(state root, AERs, full contract storage, governance, policy incl. attribute fees, contracts incl. the price of a "
+                   "test invocation, designated roles, balances) must equal the producer's; "
                    "sampled, not exhaustive"),
     "level_note": "trusted: harness observer (ledger/digest.go) and block producer; see assumptions",
     "design_ref": "DESIGN.md section 2, C01",
